@@ -28,6 +28,15 @@ struct Expected {
     path: Vec<(&'static str, &'static str)>,
 }
 
+/// "UnspecifiedEnum*" marks an enum field holding a number outside the schema (the statement speaks of unset
+/// fields, i.e. 0): it must be rejected at that field, as an unspecified value or under a kind of its own.
+fn kind_matches(expected: &str, reported: &str) -> bool {
+    match expected.strip_suffix('*') {
+        Some(base) => reported == base || reported == "OtherKind",
+        None => expected == reported,
+    }
+}
+
 fn exp(kind: &'static str, top: &'static str, path: &[(&'static str, &'static str)]) -> Expected {
     let mut p = vec![("ommx.v1.Instance", top)];
     p.extend_from_slice(path);
@@ -108,7 +117,7 @@ fn typed_expected(m: &v1::Instance) -> TypedVerdict {
     }
     // 3 sense
     if !(m.sense == 1 || m.sense == 2) {
-        must.push(exp("UnspecifiedEnum", "sense", &[]));
+        must.push(exp(if m.sense == 0 { "UnspecifiedEnum" } else { "UnspecifiedEnum*" }, "sense", &[]));
     }
     // 4 objective
     match fn_state(&m.objective) {
@@ -126,7 +135,7 @@ fn typed_expected(m: &v1::Instance) -> TypedVerdict {
             _ => {}
         }
         if !(c.equality == 1 || c.equality == 2) {
-            must.push(exp("UnspecifiedEnum", "constraints", c_eq));
+            must.push(exp(if c.equality == 0 { "UnspecifiedEnum" } else { "UnspecifiedEnum*" }, "constraints", c_eq));
         }
     }
     let r_c: &[(&'static str, &'static str)] = &[("ommx.v1.RemovedConstraint", "constraint")];
@@ -142,7 +151,7 @@ fn typed_expected(m: &v1::Instance) -> TypedVerdict {
                     _ => {}
                 }
                 if !(c.equality == 1 || c.equality == 2) {
-                    must.push(exp("UnspecifiedEnum", "removed_constraints", r_eq));
+                    must.push(exp(if c.equality == 0 { "UnspecifiedEnum" } else { "UnspecifiedEnum*" }, "removed_constraints", r_eq));
                 }
             }
         }
@@ -152,7 +161,7 @@ fn typed_expected(m: &v1::Instance) -> TypedVerdict {
     let v_bound: &[(&'static str, &'static str)] = &[("ommx.v1.DecisionVariable", "bound")];
     for v in &m.decision_variables {
         if !(1..=5).contains(&v.kind) {
-            must.push(exp("UnspecifiedEnum", "decision_variables", v_kind));
+            must.push(exp(if v.kind == 0 { "UnspecifiedEnum" } else { "UnspecifiedEnum*" }, "decision_variables", v_kind));
         }
         if let Some(b) = &v.bound {
             if bound_invalid(b) {
@@ -235,6 +244,9 @@ fn kind_of(e: &RawParseError) -> &'static str {
         RawParseError::NonUniqueConstraintID { .. } => "NonUniqueConstraintID",
         RawParseError::InvalidBound(_) => "InvalidBound",
         RawParseError::DecodeError(_) => "DecodeError",
+        // a variant added by a later SDK is a kind of its own (never equal to an expected kind)
+        #[allow(unreachable_patterns)]
+        _ => "OtherKind",
     }
 }
 
@@ -739,7 +751,7 @@ fn judge(m: &v1::Instance, label: &str, mon: &mut Monitor) {
             let reported = root_first(&e);
             let on_path = |x: &Expected| reported.len() <= x.path.len() && reported.iter().zip(x.path.iter()).all(|(c, (m, f))| *m == c.0 && *f == c.1);
             // among the violated rules of this kind and field, prefer one whose path explains the whole context
-            let hit = tv.must.iter().filter(|x| x.kind == kind && Some(x.top) == top).max_by_key(|x| on_path(x));
+            let hit = tv.must.iter().filter(|x| kind_matches(x.kind, kind) && Some(x.top) == top).max_by_key(|x| on_path(x));
             match hit {
                 None => {
                     let want: BTreeSet<String> = tv.must.iter().map(|x| format!("{}@{}", x.kind, x.top)).collect();
